@@ -17,9 +17,32 @@ roots on the same device) and every recheck list, if
   has equal content —
 * names are recorded legally and distinctly in both trees (`NamesOK`, as in C12),
 then the accelerated scan of `f₁` and the cold scan of `f₁` both fail or both
-succeed with **the same snapshot** (content and all four counters) and **the
-same digest cache**, and both ignore caches hold only the ignorer's answers
-(so they agree wherever both are defined; the accelerated one may lack keys).
+succeed with **the same snapshot** (content and all four counters), **the
+same digest cache**, and ignore caches related as follows:
+* both hold only the ignorer's answers;
+* the accelerated ignore cache is a **sub-map** of the cold one (every binding of
+  the accelerated cache is a binding of the cold cache);
+* a binding of the cold cache can be missing from the accelerated one **only at or
+  below a directory path `cp` that is not dirty and at which the baseline has an
+  entry `B`** (`BaseAt E₀ cp B`), **and only if its key is not the key of a tracked
+  entry of `B`** (content that the baseline ignores, does not track, reports as
+  problematic or does not have) — everywhere else the two caches are equal.
+Below a directory that is not dirty the scan does not descend: it walks the
+baseline entry instead (scan.go:527-560), and `walk_carries_over` says exactly
+which bindings that walk produces: the old ignore cache's bindings for the keys
+`(path, isDirectory)` of the baseline sub-tree's entries that are neither
+untracked nor problematic (`TrackedKey`); keys of ignored content (absent from
+the baseline), of untracked and of problematic entries are dropped, as are keys
+the old cache does not bind.  `cold_cache_binds_tracked_keys` shows the old
+cache (a cold scan's) does bind every such key, so
+(`walk_carries_every_tracked_key`) the walk over a baseline sub-tree carries over
+the keys of its tracked entries, all of them and nothing else; what is dropped
+are the keys of ignored, untracked and problematic content.
+`reused_directory_step` is the loop step that uses the walk.
+
+`accel_eq_cold_file_root` is the same statement for roots that are regular
+files.  `same_root_device_needed`: the theorem does not extend to a root that
+moved to another device.
 
 The hypotheses are exactly the property's: `content_change_must_be_visible`
 and `changes_must_be_reported` below show, on concrete trees, that dropping
@@ -27,7 +50,10 @@ either one makes the accelerated scan differ from the cold one.
 -/
 namespace Mutagen.Properties.C13
 open Mutagen.Model Mutagen.Model.ScanFS Mutagen.Proofs.ScanFS Mutagen.Proofs.ScanAccel
-open Mutagen.Proofs.ScanReuse Mutagen.Proofs.ScanSim Mutagen.Proofs.ScanAccelMain
+open Mutagen.Proofs.ScanReuse Mutagen.Proofs.ScanSim Mutagen.Proofs.ScanAccelMain Mutagen.Proofs.ScanIgnKeys
+open Mutagen.Proofs.ScanPaths (Under)
+open Mutagen.Proofs.ScanCold (andThen ignSt)
+open Mutagen.Proofs.ScanFrame (add)
 
 theorem no_recheck_aux (cfg : Cfg) (out₀ : Out) (dev : Nat) (cs : Children) (E₀ : Entry)
     (hroot : out₀.snapshot.content = some E₀) (hk : E₀.kind = .directory)
@@ -35,6 +61,30 @@ theorem no_recheck_aux (cfg : Cfg) (out₀ : Out) (dev : Nat) (cs : Children) (E
     scan cfg (prevOf out₀ []) (some (.dir dev cs)) = .ok out₀ := by
   unfold scan prevOf
   simp [hroot, hk, hx, hd]
+
+/-- A cold scan's ignore cache binds the key of every tracked entry of its snapshot
+(the root itself excepted: nothing asks whether the root is ignored). -/
+theorem cold_cache_binds_tracked_keys (cfg : Cfg) (dev : Nat) (cs : Children) (out : Out) (E : Entry)
+    (h : scanCold cfg (some (.dir dev cs)) = .ok out) (hroot : out.snapshot.content = some E)
+    (k : String × Bool) (hk : TrackedKey "" E k) : k = ("", true) ∨ ∃ v, alookup k out.ignoreCache = some v := by
+  rw [Mutagen.Proofs.ScanFS.scanCold_dir] at h
+  have hc := coldKeys_node { cfg with deviceID := dev } (.dir dev cs) "" true false (.none, "")
+  simp only [Mutagen.Proofs.ScanCold.cold] at hc
+  revert h hc
+  cases scanNode { cfg with deviceID := dev } {} "" true none false (.none, "") (.dir dev cs) {} with
+  | mk r d =>
+    cases r with
+    | entry e =>
+      simp only [outOf]
+      intro h hc
+      cases h
+      simp only at hroot
+      cases hroot
+      rcases hc E rfl k hk with h1 | h1
+      · exact Or.inl h1
+      · exact Or.inr (key_alookup _ k h1)
+    | notExist => simp [outOf]
+    | abort => simp [outOf]
 
 /-- `accel_eq_cold`. -/
 theorem accel_eq_cold (cfg : Cfg) (dev : Nat) (cs₀ cs₁ : Children) (recheck dirty : List String) (out₀ : Out) (E₀ : Entry)
@@ -47,7 +97,11 @@ theorem accel_eq_cold (cfg : Cfg) (dev : Nat) (cs₀ cs₁ : Children) (recheck 
     | .ok w, .ok c =>
       w.snapshot = c.snapshot ∧ w.cache = c.cache ∧
       (∀ k v, alookup k w.ignoreCache = some v → v = cfg.ignorer k.1 k.2) ∧
-      (∀ k v, alookup k c.ignoreCache = some v → v = cfg.ignorer k.1 k.2)
+      (∀ k v, alookup k c.ignoreCache = some v → v = cfg.ignorer k.1 k.2) ∧
+      (∀ k v, alookup k w.ignoreCache = some v → alookup k c.ignoreCache = some v) ∧
+      (∀ k v, alookup k c.ignoreCache = some v →
+        alookup k w.ignoreCache = some v ∨
+        ∃ cp B, cp ≠ "" ∧ cp ∉ dirty ∧ BaseAt E₀ cp B ∧ Under k.1 cp ∧ ¬ TrackedKey cp B k)
     | .error e, .error e' => e = e'
     | _, _ => False := by
   have h := accel_eq_cold_core cfg dev cs₀ cs₁ recheck dirty out₀ E₀ hnames₀ hnames₁ hbase hroot hrootKind hrecheck hdirty hcovers
@@ -59,7 +113,92 @@ theorem accel_eq_cold (cfg : Cfg) (dev : Nat) (cs₀ cs₁ : Children) (recheck 
     | error e => exact id
     | ok c =>
       intro h
-      exact ⟨h.1, h.2.1, fun k v hk => ignOK_lookup cfg _ h.2.2.1 k v hk, fun k v hk => ignOK_lookup cfg _ h.2.2.2 k v hk⟩
+      obtain ⟨h1, h2, h3, h4, h5, h6⟩ := h
+      refine ⟨h1, h2, fun k v hk => ignOK_lookup cfg _ h3 k v hk, fun k v hk => ignOK_lookup cfg _ h4 k v hk,
+        submap_of_keys cfg _ _ h3 h4 h5, ?_⟩
+      intro k v hk
+      rcases h6 k (alookup_some_key _ k v hk) with hw | hd
+      · left
+        obtain ⟨v', hv'⟩ := key_alookup _ k hw
+        rw [hv', ignOK_lookup cfg _ h3 k v' hv', ignOK_lookup cfg _ h4 k v hk]
+      · right
+        obtain ⟨cp, B, hne, hnd, hat, hu, hnot⟩ := hd
+        refine ⟨cp, B, hne, hnd, hat, hu, ?_⟩
+        intro ht
+        rcases cold_cache_binds_tracked_keys cfg dev cs₀ out₀ E₀ hbase hroot k (trackedKey_lift E₀ cp B k hat ht) with h0 | ⟨v0, h0⟩
+        · rw [h0] at hu
+          exact hne (under_empty cp hu)
+        · exact hnot ⟨ht, alookup_some_key _ k v0 h0⟩
+
+/-- `accel_eq_cold` for a root that is a regular file (before and after): with
+recheck paths, the accelerated scan equals the cold scan — same snapshot, same
+digest cache, and both ignore caches empty (no ignore question is asked about
+the root) — provided a content change shows in the modification time, the size
+or the inode number.  No other hypothesis is needed: whatever the old scan
+returned for the old file (a file entry, or a problematic one, in which case the
+baseline is discarded by scan.go:794-802), the digest is reused only under the
+`Covers` condition. -/
+theorem accel_eq_cold_file_root (cfg : Cfg) (content₀ : Bytes) (perm₀ : Nat) (mtime₀ : MTime) (size₀ ino₀ : Nat)
+    (content₁ : Bytes) (perm₁ : Nat) (mtime₁ : MTime) (size₁ ino₁ : Nat) (recheck dirty : List String) (out₀ : Out)
+    (hbase : scanCold cfg (some (.file content₀ perm₀ mtime₀ size₀ ino₀)) = .ok out₀)
+    (hrecheck : recheck ≠ []) (hdirty : dirtyClosure recheck [] = some dirty)
+    (hcovers : Covers cfg dirty "" (.file content₀ perm₀ mtime₀ size₀ ino₀) (.file content₁ perm₁ mtime₁ size₁ ino₁)) :
+    match scan cfg (prevOf out₀ recheck) (some (.file content₁ perm₁ mtime₁ size₁ ino₁)),
+          scanCold cfg (some (.file content₁ perm₁ mtime₁ size₁ ino₁)) with
+    | .ok w, .ok c => w.snapshot = c.snapshot ∧ w.cache = c.cache ∧ w.ignoreCache = [] ∧ c.ignoreCache = []
+    | .error e, .error e' => e = e'
+    | _, _ => False :=
+  accel_eq_cold_file_core cfg content₀ perm₀ mtime₀ size₀ ino₀ content₁ perm₁ mtime₁ size₁ ino₁ recheck dirty out₀
+    hbase hrecheck hdirty (by simpa [Covers] using hcovers)
+
+/-- With the old caches of a cold scan, the baseline walk at a path where the baseline
+has the entry `B` carries over the keys of the tracked entries of `B` — all of
+them and no other key. -/
+theorem walk_carries_every_tracked_key (cfg : Cfg) (dev : Nat) (cs₀ : Children) (out₀ : Out) (E₀ : Entry)
+    (hbase : scanCold cfg (some (.dir dev cs₀)) = .ok out₀) (hroot : out₀.snapshot.content = some E₀)
+    (acc : Accel) (hacc : acc.ignoreCache = out₀.ignoreCache) (cp : String) (B : Entry) (hat : BaseAt E₀ cp B)
+    (k : String × Bool) :
+    (k ∈ ikeys (reuseWalk acc cp B ({}, false)).1.newIgnore → TrackedKey cp B k) ∧
+    (TrackedKey cp B k → k = ("", true) ∨ k ∈ ikeys (reuseWalk acc cp B ({}, false)).1.newIgnore) := by
+  constructor
+  · intro hk
+    simp only [ikeys, List.mem_map] at hk
+    obtain ⟨kv, hkv, rfl⟩ := hk
+    exact ((reuseWalk_ign acc B cp kv).mp hkv).1
+  · intro ht
+    rcases cold_cache_binds_tracked_keys cfg dev cs₀ out₀ E₀ hbase hroot k (trackedKey_lift E₀ cp B k hat ht) with h0 | ⟨v, hv⟩
+    · exact Or.inl h0
+    · right
+      simp only [ikeys, List.mem_map]
+      exact ⟨(k, v), (reuseWalk_ign acc B cp (k, v)).mpr ⟨ht, by rw [hacc]; exact hv⟩, rfl⟩
+
+/-- The loop step for a directory that is reused (scan.go:527-560): when the ignore
+stage lets the child through (`.go`), its baseline entry `B` is usable
+(`reuseDecision`: the child is a directory, the baseline has a directory entry
+for it, its path is not dirty and — on Linux — the baseline directory is not
+empty) and the walk finds every digest-cache entry, the loop records `B` under
+the child's name and adds to the scanner state exactly the child's own
+ignore-cache binding plus what the walk adds (`add`: field-wise sum of scanner
+states, `andThen`: prepend to the rest of the loop); it does not open the directory. -/
+theorem reused_directory_step (cfg : Cfg) (acc : Accel) (pfx : String) (all : Children) (raw : Bytes) (node : Node)
+    (rest : Children) (baseline : Option Entry) (mask : Bool) (contents : Contents)
+    (name decoded cp : String) (isDir : Bool) (ign : (String × Bool) × IgnoreVal) (cm : Bool) (B : Entry)
+    (hpre : preDispatch cfg acc pfx mask raw node = .go name decoded cp isDir ign cm)
+    (hreuse : reuseDecision cfg acc cp (childBaseline baseline isDir name) = some B)
+    (hfound : (reuseWalk acc cp B ({}, false)).2 = false) :
+    scanChildren cfg acc pfx all ((raw, node) :: rest) baseline mask contents {} =
+      andThen (add (ignSt [ign]) (reuseWalk acc cp B ({}, false)).1)
+        (scanChildren cfg acc pfx all rest baseline mask (upsert name B contents) {}) := by
+  rw [Mutagen.Proofs.ScanCold.scanChildren_cons, hpre]
+  simp only [hreuse, hfound, Bool.false_eq_true, if_false]
+
+/-- What the baseline walk (scan.go:527-560, used instead of descending into a
+directory that is not dirty) adds to the new ignore cache: exactly the old
+cache's bindings of the keys of the tracked entries of the baseline sub-tree. -/
+theorem walk_carries_over (acc : Accel) (baseline : Entry) (path : String) (k : String × Bool) (v : IgnoreVal) :
+    (k, v) ∈ (reuseWalk acc path baseline ({}, false)).1.newIgnore ↔
+      TrackedKey path baseline k ∧ alookup k acc.ignoreCache = some v :=
+  reuseWalk_ign acc baseline path (k, v)
 
 /-- Without recheck paths an unchanged tree is answered from the base alone, and
 that answer is the cold scan's. -/
@@ -140,6 +279,18 @@ theorem changes_must_be_reported :
     digestAt (accelAfter (exCfg decAB) fsBefore ["a"] fsDeep) ["b", "a"] = some [1, 9] ∧
     digestAt (scanCold (exCfg decAB) (some fsDeep)) ["b", "a"] = some [2, 8] ∧
     digestAt (accelAfter (exCfg decAB) fsBefore ["b/a"] fsDeep) ["b", "a"] = some [2, 8] := by decide +kernel
+
+/-- `accel_eq_cold` needs the old and the new root on the same device.  The device
+test (scan.go:333) sits in the directory handler, which a reused directory never
+reaches (scan.go:527-533): if the root moves to another device while an unchanged,
+not dirty sub-directory stays on the old one, the accelerated scan keeps the
+sub-directory's old content where the cold scan reports "scan crossed filesystem
+boundary".  (A statement about the model.  `harness/cmd/c13dev` builds this
+scenario with a tmpfs root and a bind mount and shows the same difference for the
+real `core.Scan`; the C13 tie itself does not move roots between devices.) -/
+theorem same_root_device_needed :
+    kindAt (accelAfter (exCfg decAB) fsBefore ["a"] fsMoved) ["b"] = some .directory ∧
+    kindAt (scanCold (exCfg decAB) (some fsMoved)) ["b"] = some .problematic := by decide +kernel
 
 /-- The hypotheses of `accel_eq_cold` hold for `fsBefore` → `fsTouched` with recheck path `a`
 (the file `a` was rewritten and its modification time moved; `b/` is unchanged and not dirty). -/
